@@ -14,6 +14,7 @@ pub mod c06;
 pub mod c07;
 pub mod c08;
 pub mod c09;
+pub mod c10;
 pub mod c11;
 pub mod c12;
 pub mod c13;
@@ -52,6 +53,7 @@ pub fn modules() -> Vec<Module> {
         module!("C07", c07),
         module!("C08", c08),
         module!("C09", c09),
+        module!("C10", c10),
         module!("C11", c11),
         module!("C12", c12),
         module!("C13", c13),
